@@ -232,6 +232,9 @@ func (s *SoftwrapScanner) Scan(ctx vxfw.DrawContext) bool {
 			s.rest = append(s.rest, trSpace...)
 			// Append the rest...
 			s.rest = append(s.rest, rest...)
+			// what is left of the word is segmented afresh: the state
+			// belongs to the text before it
+			s.state = -1
 			return true
 		}
 
